@@ -32,3 +32,186 @@ class HC_cov(Contract):
         """C09: frequency covariance < cov_max; one NaN pattern (mask 0 <=> blanked)."""
         keep = N.less(Fn_cov, max_cov)
         return (N.where(keep, Fn_cov, NAN), N.astype(keep, "int"))
+
+
+# ----------------------------------------------------------------------------------
+from pyvc.interp import LoopSpec
+from pyvc.sym import Arr, CNAN
+import z3
+
+
+def conj_present(lambd, x):
+    """x (a scalar) is not NaN, and both x and conj(x) occur somewhere in the table."""
+    return And_(N.any_(N.equal(lambd, x)), N.any_(N.equal(lambd, sym.conj_(x))))
+
+
+def _hc_conj_rows(k, pre, it):
+    lam = pre["lambd"]
+    f = lam.snapshot_fn()
+    return {"mask": Arr(lam.axes, lambda idx: And_(sym.lt(idx[0][0], k), conj_present(lam, f(idx))), "bool")}
+
+
+def _hc_conj_cols(k, pre, it):
+    lam = pre["lambd"]
+    f = lam.snapshot_fn()
+    m0 = pre["mask"].snapshot_fn()
+    i = pre["i"]
+    return {"mask": Arr(lam.axes, lambda idx: ite(And_(sym.eq(idx[0][0], i), sym.lt(idx[1][0], k)),
+                                                  conj_present(lam, f(idx)), m0(idx)), "bool")}
+
+
+@register
+class HC_conj(Contract):
+    qualname = "pyoma2.functions.gen.HC_conj"
+    props = ("C09",)
+    loops = {0: LoopSpec(_hc_conj_rows), 1: LoopSpec(_hc_conj_cols)}
+
+    def setup(self, c):
+        return {"lambd": S.array("lambd", "complex", ndim=2)}
+
+    def spec(self, c, lambd):
+        """C09: a pole is kept iff its complex conjugate is present in the table."""
+        f = lambd.snapshot_fn()
+        mask = Arr(lambd.axes, lambda idx: conj_present(lambd, f(idx)), "bool")
+        return (N.where(mask, lambd, CNAN), mask)
+
+
+@register
+class applymask(Contract):
+    qualname = "pyoma2.functions.gen.applymask"
+    props = ("C09",)
+    NLIST = 3
+
+    def setup(self, c):
+        n0 = S.integer("n0", lo=0)
+        n1 = S.integer("n1", lo=0)
+        L = S.integer("len_phi", lo=1)
+        mask = S.array("mask", "bool", shape=(n0, n1))
+        lst = [S.array("a2", "float", shape=(n0, n1)), None,
+               S.array("a3", "complex", shape=(n0, n1, L))]
+        return {"list_arr": lst, "mask": mask, "len_phi": L}
+
+    def requires(self, c, list_arr, mask, len_phi):
+        out = []
+        for j, a in enumerate(list_arr):
+            out.append((f"rank[{j}]", a is None or (isinstance(a, Arr) and a.ndim in (2, 3))))
+            if isinstance(a, Arr) and a.ndim == 3:
+                out.append((f"len_phi[{j}]", sym.eq(a.shape[2], len_phi)))
+        return out
+
+    def spec(self, c, list_arr, mask, len_phi):
+        """every table is blanked exactly where the mask is false (whole mode-shape vectors for
+        rank-3 tables); None entries stay None; the list keeps its length and order."""
+        out = []
+        for a in list_arr:
+            if a is None:
+                out.append(None)
+            elif a.ndim == 3:
+                m3 = N.repeat(N.expand_dims(mask, -1), len_phi, axis=-1)
+                out.append(N.where(m3, a, sym.NAN))
+            else:
+                out.append(N.where(mask, a, sym.NAN))
+        return out
+
+
+# ----------------------------------------------------------------------------------
+# abstract indicator contracts (values decided under C18; here only "some function of the vector")
+# ----------------------------------------------------------------------------------
+from pyvc.core import PyRaise, Unsupported
+
+
+def _indicator(name, phi):
+    v = S.vec_of(phi)
+    if v is None:
+        raise Unsupported(f"{name} applied to an array that is not an abstract mode-shape vector")
+    R = z3.RealSort()
+    val = sym.ufun(name + "_val", sym.VecSort, R)
+    nan = sym.ufun(name + "_nan", sym.VecSort, z3.BoolSort())
+    return v, F(nan(v), val(v))
+
+
+class _IndicatorAbs(Contract):
+    """Used at call sites only (C09/C10): MPC/MPD are functions of the mode-shape vector; a
+    non-finite vector makes numpy.linalg raise LinAlgError (svd / eigvals of a NaN matrix)."""
+    indicator = ""
+
+    def spec(self, c, phi):
+        v, val = _indicator(self.indicator, phi)
+        if c.branch(sym.vec_isnan(v)):
+            raise PyRaise("LinAlgError", "SVD did not converge / array must not contain infs or NaNs")
+        return val
+
+
+@register
+class MPD_abs(_IndicatorAbs):
+    qualname = "pyoma2.functions.gen.MPD"
+    name = "abstract"
+    indicator = "MPD"
+    verify_body = False
+
+
+@register
+class MPC_abs(_IndicatorAbs):
+    qualname = "pyoma2.functions.gen.MPC"
+    name = "abstract"
+    indicator = "MPC"
+    verify_body = False
+
+
+def mpd_ok(vec, lim):
+    """pole passes the MPD criterion: vector finite, MPD finite and <= lim"""
+    nan = sym.ufun("MPD_nan", sym.VecSort, z3.BoolSort())
+    val = sym.ufun("MPD_val", sym.VecSort, z3.RealSort())
+    return And_(Not_(sym.vec_isnan(vec)), sym.le(F(nan(vec), val(vec)), lim))
+
+
+def mpc_ok(vec, lim):
+    nan = sym.ufun("MPC_nan", sym.VecSort, z3.BoolSort())
+    val = sym.ufun("MPC_val", sym.VecSort, z3.RealSort())
+    return And_(Not_(sym.vec_isnan(vec)), sym.le(lim, F(nan(vec), val(vec))))
+
+
+def _phi_lists(n_rows_done, row_partial, pre, which):
+    """closed form of the list built by the double loops of HC_phi_comp"""
+    phi = pre["phi"]
+    n1 = phi.shape[1]
+    lim = pre["mpd_lim"] if which == "mask" else pre["mpc_lim"]
+    ok = mpd_ok if which == "mask" else mpc_ok
+    length = sym.add(sym.mul(n_rows_done, n1), row_partial)
+
+    def elem(p):
+        o, i = sym.split_index(p, (phi.shape[0], n1))
+        return sym.b2i(ok(phi.vecfn(((o,), (i,))), lim))
+    from pyvc.sym import Seq
+    return Seq(length, elem)
+
+
+def _mk_phi_loops():
+    loops = {}
+    for base, which in ((0, "mask"), (2, "mask2")):
+        loops[base] = LoopSpec(lambda k, pre, it, which=which: {which: _phi_lists(k, 0, pre, which)})
+        loops[base + 1] = LoopSpec(lambda k, pre, it, which=which: {which: _phi_lists(pre["o"], k, pre, which)})
+    return loops
+
+
+@register
+class HC_phi_comp(Contract):
+    qualname = "pyoma2.functions.gen.HC_phi_comp"
+    props = ("C09",)
+    loops = _mk_phi_loops()
+
+    def setup(self, c):
+        n0 = S.integer("n0", lo=1)
+        n1 = S.integer("n1", lo=1)
+        L = S.integer("L", lo=1)
+        return {"phi": S.vec_table("phi", (n0, n1, L)), "mpc_lim": S.real("mpc_lim"), "mpd_lim": S.real("mpd_lim")}
+
+    def requires(self, c, phi, mpc_lim, mpd_lim):
+        return [("vectors", isinstance(phi, Arr) and phi.ndim == 3 and phi.vecfn is not None)]
+
+    def spec(self, c, phi, mpc_lim, mpd_lim):
+        """returns (MPD mask, MPC mask): 1 iff the vector is finite and the indicator passes"""
+        ax = phi.axes[:2]
+        m_mpd = Arr(ax, lambda idx: sym.b2i(mpd_ok(phi.vecfn(idx), mpd_lim)), "int")
+        m_mpc = Arr(ax, lambda idx: sym.b2i(mpc_ok(phi.vecfn(idx), mpc_lim)), "int")
+        return (m_mpd, m_mpc)
